@@ -172,6 +172,8 @@ func (c *chatHandler) handleKeyedCommand(packet *chat.KeyedPlayerCommand) error 
 }
 
 func (c *chatHandler) handleSessionCommand(packet *chat.SessionPlayerCommand, unsigned bool) error {
+	// acknowledgeCommand passes the 'last seen' offset of a command that is not forwarded on to the backend.
+	var acknowledgeCommand func(packet *chat.SessionPlayerCommand, hasLastSeenMessages bool) proto.Packet
 	consumeCommand := func(packet *chat.SessionPlayerCommand, hasLastSeenMessages bool) proto.Packet {
 		if !hasLastSeenMessages {
 			return nil
@@ -179,7 +181,14 @@ func (c *chatHandler) handleSessionCommand(packet *chat.SessionPlayerCommand, un
 		if packet.Signed() {
 			if c.disconnectIllegalProtocolState(c.player) {
 				c.log.Info("A plugin tried to deny a command with signable component(s). This is not supported with forceKeyAuthentication enabled.")
+				return nil
 			}
+			// The player stays connected, the acknowledgement must still reach the backend.
+		}
+		return acknowledgeCommand(packet, hasLastSeenMessages)
+	}
+	acknowledgeCommand = func(packet *chat.SessionPlayerCommand, hasLastSeenMessages bool) proto.Packet {
+		if !hasLastSeenMessages {
 			return nil
 		}
 
@@ -202,10 +211,11 @@ func (c *chatHandler) handleSessionCommand(packet *chat.SessionPlayerCommand, un
 			return nil
 		}
 		return (&chat.Builder{
-			Protocol:  c.player.Protocol(),
-			Message:   "/" + newCommand,
-			Sender:    c.player.ID(),
-			Timestamp: packet.Timestamp,
+			Protocol:         c.player.Protocol(),
+			Message:          "/" + newCommand,
+			Sender:           c.player.ID(),
+			Timestamp:        packet.Timestamp,
+			LastSeenMessages: packet.LastSeenMessages,
 		}).ToServer()
 	}
 
@@ -254,7 +264,8 @@ func (c *chatHandler) handleSessionCommand(packet *chat.SessionPlayerCommand, un
 				Content: "An error occurred while running this command.",
 				S:       component.Style{Color: color.Red},
 			})
-			return nil
+			// The command was consumed by the proxy, do not lose its acknowledgement.
+			return acknowledgeCommand(packet, newLastSeenMessages != nil)
 		}
 		if hasRun {
 			return consumeCommand(packet, newLastSeenMessages != nil)
